@@ -11,8 +11,8 @@ from vfw import streams as vs
 
 BOUNDS = ("datetime round trip: calendar fields from a boundary corpus (8 instants incl. 1950/2049 pivots, leap day, year 1, year 9999), millisecond ms in "
           "[0, 999] symbolic, UTC offset in whole minutes in [-840, 840] symbolic or absent; GeneralizedTime and UTCTime; CER/DER canonical encoder: "
-          "fraction of 0..3 symbolic digits, separator {none, '.', ','}, suffix {Z, +0130, -0200, none}, with/without seconds")
-OUTSIDE = "calendar arithmetic of datetime.strptime/strftime themselves (C library); fractions longer than 3 digits (the CER encoder refuses them); years outside the corpus"
+          "fraction of 0..6 symbolic digits, separator {none, '.', ','}, suffix {Z, +0130, -0200, none}, with/without seconds")
+OUTSIDE = "calendar arithmetic of datetime.strptime/strftime themselves (C library); fractions longer than 6 digits; years outside the corpus"
 ASSUMPTIONS = ["while exploring, the name `datetime` inside pyasn1.type.useful is replaced by a shim: strptime runs the real one on the (by then concrete) calendar text and "
                "records the final replace(microsecond=, tzinfo=); timedelta(minutes=) keeps symbolic minutes; concrete replay uses the real datetime module end to end"]
 
@@ -156,14 +156,14 @@ UBASES = ["170801120112", "1708011201", "991231235959"]
 SUFFIX = ["Z", "+0130", "-0200", ""]
 
 
-def cer_canon(kind, der, base, flen, d1, d2, d3, sep, suffix):
+def cer_canon(kind, der, base, flen, d1, d2, d3, sep, suffix, d4=0, d5=0, d6=0):
     if kind == 0:
         cls, b = useful.GeneralizedTime, BASES[base]
     else:
         cls, b = useful.UTCTime, UBASES[base]
         if sep != 0:
             raise Skip()  # UTCTime has no fraction
-    frac = (chr(48 + d1) + chr(48 + d2) + chr(48 + d3))[:flen]
+    frac = (chr(48 + d1) + chr(48 + d2) + chr(48 + d3) + chr(48 + d4) + chr(48 + d5) + chr(48 + d6))[:flen]
     if sep == 0:
         if flen:
             raise Skip()
@@ -175,8 +175,8 @@ def cer_canon(kind, der, base, flen, d1, d2, d3, sep, suffix):
     try:
         out = enc.encode(cls(text))
     except error.PyAsn1Error:
-        if must_refuse:
-            return None
+        if must_refuse or flen > 3:
+            return None  # (fractions beyond milliseconds may be refused: the encoders promise canonical output, not acceptance of everything)
         return "a UTC value with '.' fraction was refused: %s" % text
     if must_refuse:
         return "non-canonical input accepted (%s)" % ("not UTC / no Z" if suffix != 0 else "comma")
@@ -201,7 +201,7 @@ OBLIGATIONS = [
         shards=[{"cal": C(c)} for c in range(len(CAL_UTC))], budget=120, doc="UTCTime.fromDateTime -> asDateTime (second precision)"),
     Obl("dt_x680", dt_x680, {"cal": I(0, 2), "ms": I(0, 999)}, budget=60,
         doc="fromDateTime() text read per X.680 denotes the datetime's instant"),
-    Obl("cer_canon", cer_canon, {"kind": I(0, 1), "der": B, "base": I(0, 2), "flen": I(0, 3), "d1": I(0, 9), "d2": I(0, 9), "d3": I(0, 9), "sep": I(0, 2), "suffix": I(0, 3)},
-        shards=[{"kind": C(k), "der": C(d), "base": C(b)} for k in (0, 1) for d in (False, True) for b in range(3)], budget=120,
+    Obl("cer_canon", cer_canon, {"kind": I(0, 1), "der": B, "base": I(0, 2), "flen": I(0, 6), "d1": I(0, 9), "d2": I(0, 9), "d3": I(0, 9), "d4": I(0, 9), "d5": I(0, 9), "d6": I(0, 9), "sep": I(0, 2), "suffix": I(0, 3)},
+        shards=[{"kind": C(k), "der": C(d), "base": C(b)} for k in (0, 1) for d in (False, True) for b in range(3)], budget=150,
         doc="CER/DER time encoders: refuse non-UTC/comma/no-Z, emit exactly the canonical text otherwise"),
 ]
